@@ -555,6 +555,7 @@ func (lm *levelManager) compactLN(n int) {
 // remove version <= discardAtOrBelow and keep latest version
 func (lm *levelManager) discardStaleEntries(entries []types.Entry) []types.Entry {
 	low := lm.db.oracle.discardAtOrBelow()
+	verifhook.At("lm.discard", low, len(entries))
 	if low == 0 {
 		return entries
 	}
